@@ -149,11 +149,15 @@ def tlc_lines(out_path, prefix):
 TRACE_RESULT_RE = re.compile(r'<<\s*"TRACE-RESULT",\s*(\d+),\s*\{([^}]*)\}\s*>>')
 
 
+TRACE_ENV = {}      # extra environment for trace validation (read by the trace specs through IOEnv)
+
+
 def _validate_chunk(trace_module, cfg, chunk_path, wd, idx, timeout):
     metadir = os.path.join(wd, "mdv_%d_%d" % (os.getpid(), idx))
     shutil.rmtree(metadir, ignore_errors=True)
     cmd = tlc_cmd(os.path.join(SPEC, trace_module), os.path.join(SPEC, cfg), metadir, 1, xmx="3g", deque=True)
     env = dict(os.environ, TRACE=chunk_path)
+    env.update(TRACE_ENV)
     env.pop("JAVA_TOOL_OPTIONS", None)
     try:
         r = subprocess.run(cmd, cwd=SPEC, stdout=subprocess.PIPE, stderr=subprocess.STDOUT, text=True, env=env, timeout=timeout)
